@@ -228,7 +228,22 @@ func (fr *Frame) trustedCall(st *State, fn *ssa.Function, args []Val, resT types
 		g.note("trusted: (*regexp.Regexp).MatchString is a deterministic predicate of (regexp, string) (uninterpreted re_match)")
 		g.needReMatch = true
 		return Val{T: types.Typ[types.Bool], S: "(re_match " + args[0].S + " " + args[1].S + ")"}, true
-	case "strings.Contains", "strings.ContainsRune", "strings.HasSuffix", "strings.EqualFold", "errors.Is":
+	case "strings.ContainsRune":
+		if c, isC := g.constOfArg(args[1]); isC && c >= 0 && c < 0x80 {
+			g.note("trusted: strings.ContainsRune(s, c) for an ASCII constant c is true exactly when some byte of s equals c")
+			p := g.declare("hasrune", "Bool")
+			w := g.declare("runeat", g.idxSort())
+			s := args[0].S
+			ln := "(str_len " + s + ")"
+			bc := g.byteConst(byte(c))
+			g.assume(implies(p, and(g.idxLe(g.idxConst(0), w), g.idxLt(w, ln), "(= "+g.strAt(s, w)+" "+bc+")")))
+			k := g.fresh("hk")
+			g.assume(implies(not(p), "(forall (("+k+" "+g.idxSort()+")) (=> "+and(g.idxLe(g.idxConst(0), k), g.idxLt(k, ln))+" (not (= "+g.strAt(s, k)+" "+bc+"))))"))
+			return Val{T: types.Typ[types.Bool], S: p}, true
+		}
+		g.note("trusted: " + name + " is a pure predicate (result unconstrained)")
+		return g.havocVal("pred", types.Typ[types.Bool]), true
+	case "strings.Contains", "strings.HasSuffix", "strings.EqualFold", "errors.Is":
 		g.note("trusted: " + name + " is a pure predicate (result unconstrained)")
 		return g.havocVal("pred", types.Typ[types.Bool]), true
 	}
